@@ -344,6 +344,7 @@ impl cmp::PartialEq for Value {
             (Value::ObjClass(first), Value::ObjClass(second)) => *first == *second,
             (Value::ObjInstance(first), Value::ObjInstance(second)) => *first == *second,
             (Value::ObjBoundMethod(first), Value::ObjBoundMethod(second)) => *first == *second,
+            (Value::ObjBoundNative(first), Value::ObjBoundNative(second)) => *first == *second,
             (Value::ObjTuple(first), Value::ObjTuple(second)) => **first == **second,
             (Value::ObjTupleIter(first), Value::ObjTupleIter(second)) => *first == *second,
             (Value::ObjVec(first), Value::ObjVec(second)) => *first.borrow() == *second.borrow(),
